@@ -569,3 +569,22 @@ func (st *stateTracker) Me() *Nick {
 """, expect="skip"),
 ]
 MUTANTS = [m for m in MUTANTS if m.get("expect") != "skip"]
+
+MUTANTS += [
+    # ---- C10
+    M("c10-threshold-9s", ["C10"], CONN, "	if conn.badness > 10*time.Second {", "	if conn.badness > 9*time.Second {"),
+    M("c10-threshold-12s", ["C10"], CONN, "	if conn.badness > 10*time.Second {", "	if conn.badness > 12*time.Second {"),
+    M("c10-no-floor", ["C10"], CONN, """	if conn.badness += linetime - elapsed; conn.badness < 0 {
+		// negative badness times are badness...
+		conn.badness = 0
+	}""", """	conn.badness += linetime - elapsed"""),
+    M("c10-per-char-100", ["C10"], CONN, "	linetime := 2*time.Second + time.Duration(chars)*time.Second/120", "	linetime := 2*time.Second + time.Duration(chars)*time.Second/100"),
+    M("c10-base-1s", ["C10"], CONN, "	linetime := 2*time.Second + time.Duration(chars)*time.Second/120", "	linetime := 1*time.Second + time.Duration(chars)*time.Second/120"),
+    M("c10-returns-badness", ["C10"], CONN, "	if conn.badness > 10*time.Second {\n		return linetime\n	}", "	if conn.badness > 10*time.Second {\n		return conn.badness - 10*time.Second\n	}"),
+    M("c10-write-sleeps-half", ["C10"], CONN, "			<-time.After(t)", "			<-time.After(t / 2)"),
+    M("c10-flood-inverted", ["C10"], CONN, "	if !conn.cfg.Flood {\n		if t := conn.rateLimit(len(line)); t != 0 {", "	if conn.cfg.Flood {\n		if t := conn.rateLimit(len(line)); t != 0 {"),
+    M("c10-lastsent-not-updated", ["C10"], CONN, "	conn.lastsent = time.Now()\n	// If we've sent more", "	// If we've sent more"),
+    M("c10-gt-to-ge", ["C10"], CONN, "	if conn.badness > 10*time.Second {", "	if conn.badness >= 10*time.Second {", expect="control", note="the boundary has measure zero on a real clock"),
+    M("c10-ratelimit-counts-crlf", ["C10"], CONN, "		if t := conn.rateLimit(len(line)); t != 0 {", "		if t := conn.rateLimit(len(line) + 240); t != 0 {", note="only the wire leg can see how write() calls rateLimit"),
+    M("c10-sleep-capped-3s", ["C10"], CONN, "			<-time.After(t)", "			if t > 3*time.Second {\n				t = 3 * time.Second\n			}\n			<-time.After(t)", note="long lines are held for less than their charge"),
+]
